@@ -511,6 +511,30 @@ func (ar *AdmRun) exec(k *sim.Kernel, op AdmOp) {
 		if call.C != nil {
 			call.C.Leave(false)
 		}
+	case "start_rtp_pub":
+		// start_rtp_pub for a stream whose accepted input is live (as far as the harness can tell after settling): the
+		// call must report failure; when no input is known to be accepted the call is skipped (a GB28181 session that is
+		// accepted ends by timeout without any notification, which the admission history could not place)
+		k.Settle()
+		held := false
+		for _, a := range ar.Actors {
+			if a.Plan.Stream == op.Stream && a.Started && !a.Stopped && a.Attempt != nil && a.Attempt.Known && a.Attempt.Accepted && a.Attempt.RelCall < 0 {
+				closed := (a.Pub != nil && a.Pub.Closed) || (a.Rtsp != nil && a.Rtsp.Closed)
+				held = held || !closed
+			}
+		}
+		if !held {
+			return
+		}
+		body, _ := json.Marshal(map[string]interface{}{"stream_name": StreamName(op.Stream), "port": 0, "timeout_ms": 1000})
+		sent := k.Step()
+		call := ar.W.ApiStart(fmt.Sprintf("api-rtppub-%d", k.Step()), "/api/ctrl/start_rtp_pub", body)
+		k.Settle()
+		ar.PullApi = append(ar.PullApi, PullApiRecord{Kind: "start_rtp_pub", Stream: op.Stream, Result: call.Result(), Step: k.Step(), SentStep: sent, AtMs: k.NowMs()})
+		if call.C != nil {
+			call.C.Leave(false)
+		}
+		k.Probe("c03_start_rtp_pub_with_input")
 	case "reannounce":
 		// an RTSP publisher announces again on its established connection: whatever lal makes of it (it may end the
 		// session), the stream must not be left with an input nobody can remove
